@@ -5,6 +5,7 @@ package c08
 
 import (
 	"fmt"
+	"net"
 	"os"
 
 	"github.com/vmware/go-ipfix/pkg/entities"
@@ -63,6 +64,9 @@ func TestMain(m *testing.M) {
 		{glue.UserField(ref.TI64)},
 	}
 	if rp := ev.LoadReplay(); rp != nil {
+		if rp.Phase == "udp_collector_restart" {
+			ev.RunReplay(rp, runRestartRepeated)
+		}
 		if rp.Phase == "stamps" {
 			ev.RunReplay(rp, runStamp)
 		}
@@ -361,7 +365,107 @@ func runStamp(c Stamp) *ev.Failure {
 	return nil
 }
 
+// runRestart: the udp collector goes away and comes back on the same port while the exporter keeps
+// its socket. Sends made while nobody listens may fail or vanish (that is udp); but from the moment
+// a collector listens again, a SendSet that reports success has put exactly its message on the
+// wire, with the byte count it reports. Outage is how many sends happen while nobody listens.
+func runRestart(outage int) *ev.Failure {
+	pc, err := net.ListenUDP("udp", &net.UDPAddr{IP: net.IPv4(127, 0, 0, 1)})
+	if err != nil {
+		return nil
+	}
+	addr := pc.LocalAddr().(*net.UDPAddr)
+	ep, err := exporter.InitExportingProcess(exporter.ExporterInput{CollectorAddress: addr.String(), CollectorProtocol: "udp", ObservationDomainID: 8, TempRefTimeout: 3600})
+	if err != nil {
+		pc.Close()
+		return nil
+	}
+	defer ep.CloseConnToCollector()
+	fields := templates[0]
+	recv := func(c *net.UDPConn, limit time.Duration) []byte {
+		buf := make([]byte, 65536)
+		c.SetReadDeadline(time.Now().Add(limit))
+		n, _, err := c.ReadFromUDP(buf)
+		if err != nil {
+			return nil
+		}
+		return buf[:n]
+	}
+	ts, _ := exph.TemplateSet(256, fields, 0)
+	if _, err := ep.SendSet(ts); err != nil {
+		pc.Close()
+		return ev.Failf("template: %v", err)
+	}
+	if recv(pc, 5*time.Second) == nil {
+		pc.Close()
+		return nil // loss on the loopback: no verdict
+	}
+	pc.Close()
+	data := func(k int) (entities.Set, error) {
+		return exph.DataSet(256, fields, [][]ref.Value{{{U: uint64(k)}, {U: uint64(k) * 3}}}, 0)
+	}
+	for k := 0; k < outage; k++ {
+		ds, _ := data(k)
+		ep.SendSet(ds) // nobody listens: whatever happens is not judged
+		time.Sleep(5 * time.Millisecond)
+	}
+	pc2, err := net.ListenUDP("udp", addr)
+	if err != nil {
+		return nil // the port was taken meanwhile: no verdict
+	}
+	defer pc2.Close()
+	okSends := 0
+	for k := 100; k < 104; k++ {
+		ds, _ := data(k)
+		n, err := ep.SendSet(ds)
+		if err != nil {
+			continue // a pending error of the outage may surface here: allowed, the application is told
+		}
+		okSends++
+		got := recv(pc2, 3*time.Second)
+		if got == nil {
+			// a datagram can be lost on the loopback: the caller repeats the scenario, and the same
+			// send going missing every time is not loss
+			missing = fmt.Sprintf("udp collector back on its port after an outage of %d sends: send %d after the restart reported %d bytes sent and nothing arrived", outage, k-99, n)
+			return nil
+		}
+		if len(got) != n {
+			return ev.Failf("udp collector restarted: SendSet reported %d bytes, the datagram has %d", n, len(got))
+		}
+		if _, sets, err := ref.ParseMessage(got); err != nil || len(sets) != 1 {
+			return ev.Failf("udp collector restarted: the datagram is not a well-formed message: %v", err)
+		}
+	}
+	if okSends == 0 {
+		return ev.Failf("udp collector restarted on its port: four sends in a row failed after it was back")
+	}
+	return nil
+}
+
+// missing is set by runRestart when a send that reported success did not arrive.
+var missing string
+
+func runRestartRepeated(outage int) *ev.Failure {
+	for attempt := 1; ; attempt++ {
+		missing = ""
+		if f := runRestart(outage); f != nil || missing == "" {
+			return f
+		}
+		if attempt == 3 {
+			return ev.Failf("three times in a row: %s", missing)
+		}
+	}
+}
+
 func TestC08(t *testing.T) {
+	for _, outage := range []int{1, 2, 5} {
+		f := runRestartRepeated(outage)
+		rec.Case(ev.Hash([]any{"udp_collector_restart", outage}), true, "udp_collector_restart")
+		if f != nil {
+			rec.Violation("udp_collector_restart", outage, f.Msg)
+			t.Fatalf("%s", f.Msg)
+		}
+	}
 	if !ev.Rapid(t, rec, "stamps", rec.Scale(3000, 300000), func(t *rapid.T) Stamp {
 		c := Stamp{Nsec: rapid.SampledFrom([]int64{0, 1, 499999999, 999999999}).Draw(t, "nsec"),
 			ZoneMin: rapid.SampledFrom([]int{0, 0, 330, -480, 765, 840, -720}).Draw(t, "zone_min"),
